@@ -296,8 +296,11 @@ def fstring_middle_pattern(quote: str, raw: bool) -> str:
 def fstring_spec_pattern(quote: str) -> str:
     """Inside a format spec: literal text up to a nested replacement field or the closing brace."""
     q = quote[0]
-    literal = rf"(?:[^{q}{{}}\n]|{q}(?!{q}{q}))*" if len(quote) == 3 else rf"[^{q}{{}}\n]*"
-    return choice(LBrace=literal + r"\{", RBrace=literal + r"\}")
+    lone = rf"|{q}(?!{q}{q})" if len(quote) == 3 else ""  # lone quotes inside a triple-quoted f-string
+    literal = rf"(?:[^{q}{{}}\n]{lone})*"
+    # like CPython, a \N{...} escape belongs to the literal text and ends the part it stands in
+    named = rf"(?:[^\\{q}{{}}\n]{lone}|\\(?!N\{{)[^{{}}\n])*\\N\{{[^{{}}{q}\n]*\}}"
+    return choice(Named=named, LBrace=literal + r"\{", RBrace=literal + r"\}")
 
 tabsize = 8
 
@@ -612,6 +615,9 @@ def handle_fstring_progs(state: TokenizerState, endprog: EndProg) -> Iterator[To
         state.pop_mode()
     elif endmatch.lastgroup == "BadRBrace":
         raise TokenError("f-string: single '}' is not allowed", (state.lnum, end - 1))
+    elif endmatch.lastgroup == "Named":  # literal text of a format spec up to the end of a \N{...} escape
+        yield state.prog_token(end, Token.FSTRING_MIDDLE)
+        endprog.reset((state.lnum, end), state.line)
     else:  # "{" or "}"
         middle_end = end - 1
         # like CPython, a format spec always ends in a literal part, even an empty one ('{a:}', '{a:{w}}')
